@@ -53,7 +53,10 @@ def add_constructor_contracts(world, marshal_assumed=True):
              modifies=lambda cx: [(cx.args['self'], 'DBusMessage.' + f) for f in
                                   ('headers', 'bodyLength', 'serial', 'rawHeader', 'rawPadding', 'rawBody',
                                    'rawMessage', 'unix_fds', 'unix_fds?set')],
-             ensures=lambda cx: [('path-valid', opt_in(cx.new(cx.args['self']).path, G.OBJECT_PATH, False))],
+             ensures=lambda cx: [('path-valid', opt_in(cx.new(cx.args['self']).path, G.OBJECT_PATH, False)),
+                                 ('same-serial-unless-a-new-one-is-asked-for', z3.Implies(z3.Not(cx.args['newSerial'].term), z3.And(
+                                     cx.new(cx.args['self']).serial.none == cx.old(cx.args['self']).serial.none,
+                                     cx.new(cx.args['self']).serial.val.term == cx.old(cx.args['self']).serial.val.term)))],
              raises={MarshallingError: lambda cx: z3.BoolVal(True), Exception: lambda cx: z3.BoolVal(True)},
              assumed=marshal_assumed, may_raise_any=True)
 
